@@ -1,6 +1,6 @@
 (* C12 - lemmas about the path-resolution model (model/PathMapC12.v). *)
 From Coq Require Import List String Ascii Bool Arith Lia.
-From RC Require Import lib.PyStr model.PathMapC12.
+From RC Require Import lib.PyStr gen.HarvestC12Consts model.PathMapC12.
 Import ListNotations.
 Open Scope string_scope.
 Open Scope nat_scope.
@@ -19,14 +19,14 @@ Lemma dotdot_spelling_refuted :
     /\ open_ KZip pr (fake_root KZip "demo-1.0") (start_cwd KZip (fake_root KZip "demo-1.0") (p_lead pr) true) p = OErr.
 Proof. exists pr_demo, "pkg/../VERSION". repeat split; vm_compute; reflexivity. Qed.
 
-(* a project WITHOUT setup.py (setup.cfg only): the code chdirs to <root>/. for every
-   packaging, which is the project for a directory but NOT the top directory of an archive *)
+(* a project WITHOUT setup.py (setup.cfg only): the code now works from the directory of the setup.cfg
+   it located, i.e. from the same cwd as for a setup.py (finding C12-cfg-only-archive, fixed) *)
+Lemma start_cwd_any k root lead b : start_cwd k root lead b = start_cwd k root lead true.
+Proof. destruct b; [reflexivity|]. unfold start_cwd. change cfg_only_dir_follows_cfg with true. destruct k; reflexivity. Qed.
+
 Definition pr_cfg : project :=
   mkProject [("setup.cfg", "C"); ("pkg/__init__.py", "I")] "demo-1.0" true true false.
 
-Lemma cfg_only_refuted :
-  exists pr,
-    exists_ KDir pr (fake_root KDir "demo-1.0") (start_cwd KDir (fake_root KDir "demo-1.0") (p_lead pr) false) "setup.cfg" = Some true
-    /\ exists_ KTar pr (fake_root KTar "demo-1.0") (start_cwd KTar (fake_root KTar "demo-1.0") (p_lead pr) false) "setup.cfg" = Some false
-    /\ exists_ KZip pr (fake_root KZip "demo-1.0") (start_cwd KZip (fake_root KZip "demo-1.0") (p_lead pr) false) "setup.cfg" = Some false.
-Proof. exists pr_cfg. repeat split; vm_compute; reflexivity. Qed.
+Example cfg_only_former_witness_fixed :
+  forall k, exists_ k pr_cfg (fake_root k "demo-1.0") (start_cwd k (fake_root k "demo-1.0") (p_lead pr_cfg) false) "setup.cfg" = Some true.
+Proof. intros k. destruct k; vm_compute; reflexivity. Qed.
